@@ -114,7 +114,8 @@ pub fn run(a: &Args) -> Ctx {
     let mut ctx = Ctx::new("C13", &["C13"], &a.replay_dir, &a.shard_name());
     let mut rng = Rng::new(a.shard_seed() ^ 0xC13);
     let dir = a.scratch.join("c13");
-    let all_values = a.thorough;
+    // every value of every signature byte in both tiers (61k opens are cheap): the mutation matrix is exhaustive
+    let all_values = true;
     let mut job = 0usize;
     for &ka in KT_NAMES.iter() {
         let (img, model, keys) = match build(&dir, ka, &mut rng) {
